@@ -435,6 +435,9 @@ def run(tier, seed):
 
     rng = random.Random(5801 + seed)
     inst = build_instances(tier, seed)
+    if tier != "quick":                    # thorough: two more independently seeded instance sets (deterministic families once)
+        for extra in (1, 2):
+            inst += [it for it in build_instances(tier, seed + 1000 * extra) if it["tmpl"] not in ("QFT", "AQFT", "GroverOperator")]
     attempted = set()                      # templates with a raising decomposition source: reported as violations, not as vacuity
     viol, cases, owners = [], [], []
     mats, float_srcs = {}, []
